@@ -5,7 +5,7 @@
     (ILP: maximise completion subject to 'placed'; TetriSched: inspection of every
     space-time placement variable); (3) completion times of planner runs with exact
     runtimes."""
-from .e2e_checks import E2ECheck, RULES
+from .e2e_checks import E2ECheck, RULES, BASE_MIX
 from .. import probes
 
 CANCELLERS = ("EDFScheduler", "FIFOScheduler", "ClockworkScheduler", "TetriSchedCPLEXScheduler")
@@ -88,7 +88,7 @@ class DeadlineCheck(E2ECheck):
                              "deadline_variances": tight, "loop_timeout": 120}, 0.2),
                 ("planner", {"scheduler": "TetriSched_CPLEX", "flags": {"enforce_deadlines": True, "runtime_variance": 0, "scheduler_plan_ahead": 12},
                              "deadline_variances": tight, "loop_timeout": 100}, 0.15),
-                ("clockwork", {}, 0.2)]
+                ("clockwork", {}, 0.2)] + [(pr, ov, 0.06) for pr, ov, _ in BASE_MIX if ov.get("small_burst")]
 
     def run_shard(self, spec, workdir):
         probes.install()
